@@ -209,3 +209,20 @@ Definition port_type_rel (reg : registry) (before after : option ty) : Prop :=
 Definition port_type_rel_b (reg : registry) (before after : option ty) : bool :=
   option_eqb ty_eqb after before ||
   match before, after with Some t, Some t' => rty_b reg t t' | _, _ => false end.
+
+(* ------------------------------------------------------------------ every depth, at HUGR level *)
+(* an operation as loading produces it: opaque, without definition-backed types in signature and arguments *)
+Definition op_loaded (o : op) : bool :=
+  match o with
+  | OCustom c => forallb no_ext (ft_in (c_sig c)) && forallb no_ext (ft_out (c_sig c)) && forallb no_ext_arg (c_args c)
+  | OExt _ => false
+  | OOther _ => true
+  end.
+(* a definition-backed operation holds no opaque type the registry could resolve, at any depth of its signature
+   and type arguments *)
+Definition op_clean (reg : registry) (o : op) : bool :=
+  match o with
+  | OExt x => forallb (clean reg) (ft_in (x_sig x)) && forallb (clean reg) (ft_out (x_sig x)) &&
+              forallb (clean_arg reg) (x_args x)
+  | _ => true
+  end.
